@@ -57,13 +57,19 @@ Definition w3c_curie_spec (sp : chr -> bool) (s : str) : bool :=
   end.
 
 (* ---- driver entry: case = [string; list of the code points that are whitespace]; obs = [prefix?; curie?] ---- *)
+Definition sp_of (spaces : str) : chr -> bool := fun c => existsb (N.eqb c) spaces.
+Definition model_w3c (sp : chr -> bool) (s : str) : val := VList [vbool (is_w3c_prefix sp s); vbool (is_w3c_curie sp s)].
+Definition spec_w3c (sp : chr -> bool) (s : str) : val := VList [vbool (ncnameb s); vbool (w3c_curie_spec sp s)].
+(* the property on one string: the two answers are those of the documented grammar *)
+Definition P_C20 (sp : chr -> bool) (s : str) (o : val) : bool := val_eqb o (spec_w3c sp s).
+(* the whitespace table is the interpreter's; '/' is not whitespace in any version of Unicode *)
+Definition valid_w3c (spaces : str) : bool := negb (sp_of spaces 47%N).
 Definition run_w3c (case obs : val) : val :=
   match case with
   | VList [VStr s; VStr spaces] =>
-      let sp := fun c => existsb (N.eqb c) spaces in
-      let m := VList [vbool (is_w3c_prefix sp s); vbool (is_w3c_curie sp s)] in
-      let spec := VList [vbool (ncnameb s); vbool (w3c_curie_spec sp s)] in
+      let sp := sp_of spaces in
+      let m := model_w3c sp s in
       let same := val_eqb m obs in
-      VList [vbool same; VInt 1; vbool (val_eqb m spec); vbool (val_eqb obs spec); if same then VList [] else m]
+      VList [vbool same; vbool (valid_w3c spaces); vbool (P_C20 sp s m); vbool (P_C20 sp s obs); if same then VList [] else m]
   | _ => VList [VInt (-1)]
   end.
